@@ -762,6 +762,14 @@ func genC12(o *Out, r *rand.Rand, thorough bool) {
 		o.Count("iterhalt")
 		o.Nontrivial(line)
 	}
+	// ... a caller that never reads the reports and asks by Halt only; and a search superseding a halted one from the same
+	// position on an engine whose evaluator keeps per-search state (SARGON): what the halted one does while unwinding must not
+	// reach its successor
+	for _, l := range []string{"published unread 3 " + fen.Initial, "published unread 4 4k3/8/8/8/8/8/4P3/4K3 w - - 0 1", "published supersede sargon 25 2 e2e4 same"} {
+		o.do(l)
+		o.Count("halt:" + strings.Fields(l)[1])
+		o.Nontrivial(l)
+	}
 	sizes := []int{0, 64, 1 << 12, 1 << 20}
 	// roots at which a draw can be claimed (third occurrence, clock at 100): halting must hand the board
 	// back with that result intact
